@@ -389,7 +389,7 @@ static json observe_all(State& st, const json& a)
     // the highest id in use is taken over live entities, handles and the small remembered ids (those of
     // handles released by a reopen), not over far-away probe ids
     for (auto i : st.ids)
-        if (i >= 0 && i < 100000)
+        if ((i >= 0 && i < 100000) || st.held_ids.count(i))
         {
             cids.insert(i);
             tids.insert(i);
@@ -702,8 +702,8 @@ bool dispatch_api(State& st, const std::string& op, const json& a, json& ret)
         // re-acquire the handles that were valid by id, observe again
         auto dir = a.at("dir").get<std::string>();
         // ids of removed entities stay in play, so that both observations probe the same lookups
-        for (auto& [h, t] : st.tracks) st.ids.insert(t.id());
-        for (auto& [h, c] : st.crates) st.ids.insert(c.id());
+        for (auto& [h, t] : st.tracks) { st.ids.insert(t.id()); st.held_ids.insert(t.id()); }
+        for (auto& [h, c] : st.crates) { st.ids.insert(c.id()); st.held_ids.insert(c.id()); }
         json before = observe_all(st, a);
         if (st.lib) before["tables"] = observe_tables(st, a);
         std::map<std::string, int64_t> th, ch;
